@@ -7,7 +7,7 @@ import math
 import numpy as np
 
 BASES = ["tetra", "box", "octa", "icosa", "icosa1", "prism5", "prism8", "torus", "two_boxes", "open_box", "open_icosa1", "icosa2"]
-VARIANTS = ["plain", "plain", "plain", "dup_vertices", "unreferenced", "degenerate_face", "duplicate_face", "flipped_some", "unmerged"]
+VARIANTS = ["plain", "plain", "plain", "dup_vertices", "unreferenced", "degenerate_face", "duplicate_face", "flipped_some", "unmerged", "near_dup"]
 
 
 def _tetra():
@@ -173,6 +173,12 @@ def build(recipe):
     elif variant == "unmerged":
         V = V[F.reshape(-1)]
         F = np.arange(len(V)).reshape(-1, 3)
+    elif variant == "near_dup":
+        # the LAST face has its own copy of one corner, a little off the original: a coarse merge moves that triangle
+        # (no face disappears), an exact one leaves it alone
+        c = int(F[-1, 1])
+        V = np.vstack([V, V[c] + np.array([0.011, -0.007, 0.009])])
+        F[-1, 1] = len(V) - 1
     elif variant == "no_faces":
         # vertices without a single face (what is left after every face was masked away)
         F = np.zeros((0, 3), dtype=np.int64)
